@@ -14,8 +14,11 @@ package main
 // One line per schedule: op "c13.sched".  Events ("ev"):
 //   ["open",u,t] ["change",u,t] ["close",u]   notifications (t = text id, see "texts")
 //   ["go",v]     let task v run to completion (lock, check, publish if current, unlock)
-//   ["run",v]    let task v run until it is inside client.PublishDiagnostics (or has returned)
-//   ["rel",v]    let the withheld PublishDiagnostics call of task v return
+//   ["run",v]    let task v run until it is inside client.PublishDiagnostics ("pub") or has
+//                returned ("skip"); if another task is inside the client call at that moment the
+//                outcome may be "blocked" (nothing seen of v within 10 ms: it waits for publishMu)
+//   ["rel",v]    let the withheld PublishDiagnostics call of task v return ("ok"; "ok+pub" /
+//                "ok+skip" when a blocked task thereby got the mutex and went on)
 // impl = {"out": per-event outcome, "log": per URI the notifications the client received
 // ([version, key of the diagnostics]), "left": tasks still in flight at the end}.
 // "expect" holds, for every (u,t) of the case, the key of the diagnostics that a FRESH real server
@@ -85,7 +88,8 @@ type c13CtxKey struct{}
 
 type c13Task struct {
 	uri     protocol.DocumentURI
-	version int
+	version int // as reported by the server through the hook
+	id      int // ordinal of the task in spawn order: the name used in events (= version, if the server numbers as the model does)
 	arrived chan int      // hook: the task has reached the yield point (value: its version)
 	gate    chan struct{} // closed by the harness: proceed to publishMu.Lock
 	inPub   chan string   // stub: the task is inside PublishDiagnostics (value: key)
@@ -133,8 +137,10 @@ const c13Timeout = 5 * time.Second
 type c13Run struct {
 	srv      *server.Server
 	tasks    map[int]*c13Task
+	nspawn   int
 	pending  []int // arrived at the yield point, not yet let go (ascending)
-	withheld int   // task inside PublishDiagnostics, 0 = none
+	held     []int // tasks inside PublishDiagnostics (at most one if publishMu does its job)
+	blocked  int   // task let go while another was inside the client call and not seen since; 0 = none
 	mu       sync.Mutex
 	log      map[protocol.DocumentURI][]any
 	ev       []any
@@ -185,9 +191,7 @@ func (r *c13Run) notify(kind string, u, t int) {
 	if !expectTask {
 		select {
 		case v := <-task.arrived: // a task although the document is not open: report it
-			task.version = v
-			r.tasks[v] = task
-			r.pending = append(r.pending, v)
+			r.adopt(task, v)
 			r.record([]any{kind, u, t}, v)
 		case <-time.After(2 * time.Millisecond):
 			r.record([]any{kind, u, t}, 0)
@@ -196,15 +200,20 @@ func (r *c13Run) notify(kind string, u, t int) {
 	}
 	select {
 	case v := <-task.arrived:
-		task.version = v
-		r.tasks[v] = task
-		r.pending = append(r.pending, v)
-		sort.Ints(r.pending)
+		r.adopt(task, v)
 		r.record([]any{kind, u, t}, v)
 	case <-time.After(c13Timeout):
 		r.dead = true
 		r.record([]any{kind, u, t}, "timeout")
 	}
+}
+
+func (r *c13Run) adopt(task *c13Task, version int) {
+	r.nspawn++
+	task.id = r.nspawn
+	task.version = version
+	r.tasks[task.id] = task
+	r.pending = append(r.pending, task.id)
 }
 
 func (r *c13Run) open(u, t int)   { r.notify("open", u, t) }
@@ -230,28 +239,48 @@ func (r *c13Run) unpend(v int) {
 	}
 }
 
+const c13Probe = 10 * time.Millisecond
+
+// await waits for task t to enter PublishDiagnostics ("pub") or to return ("skip").  While
+// another task is inside the client call the wait is short and may end with "blocked": in the
+// repaired server the task then sits in publishMu.Lock() and nothing can be seen of it.
+func (r *c13Run) await(t *c13Task) string {
+	d := c13Timeout
+	if len(r.held) > 0 {
+		d = c13Probe
+	}
+	select {
+	case <-t.inPub:
+		r.held = append(r.held, t.id)
+		return "pub"
+	case <-t.done:
+		return "skip"
+	case <-time.After(d):
+		if len(r.held) > 0 {
+			return "blocked"
+		}
+		r.dead = true
+		return "timeout"
+	}
+}
+
 // start lets task v go; returns "pub" (now inside PublishDiagnostics), "skip" (returned without
-// publishing), "timeout", or "notask".
+// publishing), "blocked", "timeout", or "notask".
 func (r *c13Run) start(v int) string {
 	t := r.tasks[v]
 	if r.dead {
 		return "dead"
 	}
-	if t == nil || !c13Contains(r.pending, v) {
+	if t == nil || !c13Contains(r.pending, v) || r.blocked != 0 {
 		return "notask"
 	}
 	r.unpend(v)
 	close(t.gate)
-	select {
-	case <-t.inPub:
-		r.withheld = v
-		return "pub"
-	case <-t.done:
-		return "skip"
-	case <-time.After(c13Timeout):
-		r.dead = true
-		return "timeout"
+	o := r.await(t)
+	if o == "blocked" {
+		r.blocked = v
 	}
+	return o
 }
 
 func (r *c13Run) finish(v int) string {
@@ -259,18 +288,31 @@ func (r *c13Run) finish(v int) string {
 	if r.dead {
 		return "dead"
 	}
-	if t == nil || r.withheld != v {
+	if t == nil || !c13Contains(r.held, v) {
 		return "notheld"
 	}
 	close(t.pubGate)
 	select {
 	case <-t.done:
-		r.withheld = 0
-		return "ok"
 	case <-time.After(c13Timeout):
 		r.dead = true
 		return "timeout"
 	}
+	for i, x := range r.held {
+		if x == v {
+			r.held = append(r.held[:i:i], r.held[i+1:]...)
+			break
+		}
+	}
+	if r.blocked != 0 {
+		// the mutex is free again: the task that was waiting for it goes on
+		o := r.await(r.tasks[r.blocked])
+		if o != "blocked" {
+			r.blocked = 0
+		}
+		return "ok+" + o
+	}
+	return "ok"
 }
 
 func (r *c13Run) run(v int) string {
@@ -320,8 +362,8 @@ func (r *c13Run) drain() {
 }
 
 func (r *c13Run) fields() map[string]any {
-	left := len(r.pending)
-	if r.withheld != 0 {
+	left := len(r.pending) + len(r.held)
+	if r.blocked != 0 {
 		left++
 	}
 	r.mu.Lock()
@@ -378,9 +420,8 @@ func c13Expect(u, t int) string {
 	r := newC13Run()
 	r.open(u, t)
 	key := "none"
-	if v, ok := r.out[0].(int); ok && v != 0 {
-		task := r.tasks[v]
-		r.unpend(v)
+	if task := r.tasks[1]; task != nil {
+		r.unpend(1)
 		close(task.gate)
 		select {
 		case key = <-task.inPub:
@@ -520,23 +561,30 @@ func c13Assignments(nd, k int, f func([]int)) {
 // c13Walk executes one schedule chosen step by step by `choose(n)` (a number below n) among
 // everything that can happen next: the next notification, letting a pending task go (to
 // completion, or only into the client call), releasing the withheld call.
-func c13Walk(c *Ctx, notes [][3]int, choose func(n int) int) {
+func c13Walk(c *Ctx, notes [][3]int, try bool, choose func(n int) int) {
 	r := newC13Run()
 	ni := 0
+	tries := 1
 	for steps := 0; steps < 200; steps++ {
 		type act struct{ kind, v int }
 		var acts []act
 		if ni < len(notes) {
 			acts = append(acts, act{0, 0})
 		}
-		if r.withheld != 0 {
-			acts = append(acts, act{3, r.withheld})
-		} else {
+		for _, v := range r.held {
+			acts = append(acts, act{3, v})
+		}
+		if len(r.held) == 0 {
 			for _, v := range r.pending {
 				acts = append(acts, act{1, v})
 				if ni < len(notes) {
 					acts = append(acts, act{2, v}) // withholding only matters if something can still arrive
 				}
+			}
+		} else if try && r.blocked == 0 && tries > 0 {
+			// let a task go although another one is inside the client call
+			for _, v := range r.pending {
+				acts = append(acts, act{2, v})
 			}
 		}
 		if len(acts) == 0 || r.dead {
@@ -558,6 +606,9 @@ func c13Walk(c *Ctx, notes [][3]int, choose func(n int) int) {
 		case 1:
 			r.goTask(a.v)
 		case 2:
+			if len(r.held) > 0 {
+				tries--
+			}
 			r.run(a.v)
 		case 3:
 			r.rel(a.v)
@@ -574,7 +625,7 @@ func c13Exhaust(c *Ctx, notes [][3]int, limit int) int {
 	for {
 		pos := 0
 		width = width[:0]
-		c13Walk(c, notes, func(k int) int {
+		c13Walk(c, notes, false, func(k int) int {
 			ch := 0
 			if pos < len(choice) {
 				ch = choice[pos]
@@ -643,6 +694,41 @@ func genC13(c *Ctx) {
 		c.Stats["interleavings:docs=2,changes=2(0,1)"] += c13Exhaust(c, mk(2, []int{0, 1}), 100000)
 		c.Stats["interleavings:docs=2,changes=2(0,0)"] += c13Exhaust(c, mk(2, []int{0, 0}), 100000)
 	}
+	// D. overtake attempts: task a is inside the client call (it passed the version check), a newer
+	// change arrives, its task b is let go.  It must wait for publishMu; whatever the server does,
+	// the calls are then released newest first, which is the order that would leave stale
+	// diagnostics if b had been able to overtake.
+	for i := 0; i < c.N(40, 400); i++ {
+		nd := 1 + c.R.IntN(2)
+		ts := c13Texts(c, 4)
+		r := newC13Run()
+		for u := 0; u < nd; u++ {
+			r.open(u, ts[u])
+		}
+		first := r.pending[c.R.IntN(len(r.pending))]
+		for _, v := range append([]int{}, r.pending...) {
+			if v != first {
+				r.goTask(v)
+			}
+		}
+		r.run(first)
+		r.change(c.R.IntN(nd), ts[2])
+		if c.R.IntN(2) == 0 {
+			r.change(c.R.IntN(nd), ts[3])
+		}
+		for len(r.pending) > 0 && r.blocked == 0 && !r.dead {
+			r.run(r.pending[c.R.IntN(len(r.pending))])
+		}
+		for (len(r.held) > 0 || len(r.pending) > 0) && !r.dead {
+			if len(r.held) > 0 {
+				r.rel(r.held[len(r.held)-1])
+			} else {
+				r.goTask(r.pending[0])
+			}
+		}
+		c.Emit("c13.sched", r.fields())
+		c.Count("overtake")
+	}
 	// C. random walks with close / re-open / changes to closed documents
 	for i := 0; i < c.N(600, 20000); i++ {
 		nd := 1 + c.R.IntN(2)
@@ -662,7 +748,12 @@ func genC13(c *Ctx) {
 				notes = append(notes, [3]int{0, u, t})
 			}
 		}
-		c13Walk(c, notes, func(k int) int { return c.R.IntN(k) })
-		c.Count("walk")
+		try := c.R.IntN(3) == 0
+		c13Walk(c, notes, try, func(k int) int { return c.R.IntN(k) })
+		if try {
+			c.Count("walk-with-overtake-attempt")
+		} else {
+			c.Count("walk")
+		}
 	}
 }
